@@ -388,6 +388,109 @@ fn extreme_years(t: &mut Tally, seed: u64, n: u64) {
     }
 }
 
+/// Validly signed requests in which exactly one authentication component takes a degenerate value — empty, a single
+/// blank or separator, an escape fragment, non-ASCII, very long — and everything else stays correct (scope, window,
+/// signature computed over the request as rendered), so the request travels as deep as that value allows: past the
+/// credential checks to the construction of the provider request, the provider call, the comparison.
+fn degenerate_components(t: &mut Tally, seed: u64, n: u64) {
+    static LONG: std::sync::OnceLock<String> = std::sync::OnceLock::new();
+    let long: &str = LONG.get_or_init(|| "A".repeat(70_000));
+    let odd: [&str; 16] = ["", " ", "\t", "%", "%2", "%2F", "%00", "+", "é", "\u{a0}", ",", "=", ";", "\"", "0", long];
+    for i in 0..n {
+        let mut r = Rng::keyed(seed, "C08", "degenerate", 0, i);
+        let mut cfg = gen_cfg(&mut r);
+        if r.chance(1, 4) {
+            cfg.reqs = crate::props::c05::gen_reqs(&mut r).0;
+        }
+        let mut l = gen_logical(&mut r, &cfg, &GenOpts::default());
+        let mut ov = Overrides::default();
+        let v = r.pick(&odd).to_string();
+        let date = l.t.yyyymmdd();
+        let which = r.below(9);
+        let class = match which {
+            0 | 1 => {
+                ov.credential = Some(format!("{}/{}/{}/{}/aws4_request", v, date, cfg.region, cfg.service));
+                "access-key"
+            }
+            2 => {
+                l.token = Some(v.clone());
+                "token"
+            }
+            3 => {
+                ov.signature = Some(v.clone());
+                "signature"
+            }
+            4 => {
+                let mut s = l.signed.clone();
+                match r.below(3) {
+                    0 => s.push(v.clone()),
+                    1 => s.insert(0, v.clone()),
+                    _ => s = vec![v.clone()],
+                }
+                ov.signed = Some(s);
+                "signed-list"
+            }
+            5 => {
+                ov.key_variant = Some(r.below(7) as u8);
+                "key-material"
+            }
+            6 => {
+                // the server itself configured with the value: the request names it and is signed for it
+                if r.coin() {
+                    cfg.region = v.clone();
+                } else {
+                    cfg.service = v.clone();
+                }
+                "server-scope"
+            }
+            7 => {
+                if v.len() < 1000 && !l.secret.is_empty() {
+                    l.secret = v.clone();
+                }
+                "secret"
+            }
+            _ => {
+                ov.ts_text = Some(v.clone());
+                "timestamp"
+            }
+        };
+        let mut sr = Rng::keyed(seed, "C08", "degenerate-spell", 0, i);
+        let mut sp = Speller {
+            r: &mut sr,
+            level: (i % 3) as u8,
+        };
+        let built = std::panic::catch_unwind(std::panic::AssertUnwindSafe(|| {
+            let (wire, _) = crate::gen::render(&l, &cfg, &mut sp, &ov);
+            wire
+        }));
+        let wire = match built {
+            Ok(w) => w,
+            Err(_) => {
+                t.count("degenerate/not-rendered");
+                continue;
+            }
+        };
+        let mut c2 = cfg.clone();
+        c2.now = l.t.plus_ns(crate::gen::gen_delta_ns(&mut r));
+        let case = Case {
+            wire,
+            cfg: c2,
+            script: Script::derive(&l.secret),
+        };
+        let rec = execute(&case);
+        if !matches!(rec.outcome, Outcome::NotBuilt(_)) {
+            t.count(&format!("degenerate/{}", class));
+            if rec.calls() > 0 {
+                t.count(&format!("degenerate-reached-provider/{}", class));
+            }
+            if v.is_empty() && which <= 1 && rec.calls() > 0 {
+                t.count("degenerate/empty-access-key-reached-provider");
+            }
+        }
+        run_case(t, &case, "degenerate-component");
+    }
+}
+
 /// Presigned (query-carrier) requests whose X-Amz-* values carry percent-encoded non-ASCII text: decimal digits of
 /// other scripts in every timestamp field, non-ASCII credential / signed-header / token text, invalid UTF-8.
 fn presigned_unicode(t: &mut Tally, seed: u64, n: u64) {
@@ -1153,6 +1256,9 @@ pub fn run(tier: Tier) -> i32 {
         if s == 1 {
             direct_api(&mut t, seed, tier.n(3000, 1_000_000));
         }
+        if s == 4 {
+            degenerate_components(&mut t, seed, tier.n(6000, 300_000));
+        }
         t
     });
     // heavy cases in a child process: aborts, stack overflows and allocation failures escape catch_unwind
@@ -1208,6 +1314,8 @@ pub fn run(tier: Tier) -> i32 {
     ctx.gate("validly signed requests with 1–3 byte-level edits executed", tally.get("executed/mutated-valid"), tier.n(50_000, 6_000_000));
     ctx.gate("presigned requests with non-ASCII digits / text in the authentication parameters", tally.get("executed/presigned-unicode"), tier.n(1500, 50_000));
     ctx.gate("requests in years −1 / 10000 (UTC) that travelled as far as the key provider", tally.get("extreme_year_reached_key_lookup"), tier.n(300, 15_000));
+    ctx.gate("validly signed requests with an empty access key that travelled as far as the key provider", tally.get("degenerate/empty-access-key-reached-provider"), tier.n(20, 1000));
+    ctx.gate("validly signed requests with one degenerate authentication component that reached the key provider", tally.sum_prefix("degenerate-reached-provider/"), tier.n(1500, 75_000));
     ctx.gate("log records formatted while hostile and mutated requests were validated with a trace-level logger", tally.get("log_records_formatted_under_hostile_inputs"), tier.n(20_000, 1_000_000));
     ctx.gate("charset labels executed", tally.get("charset_labels_executed"), LABELS.len() as u64 + 9);
     ctx.gate("heavy cases (≥ 60 KiB bodies, limit-length URIs) completed in the child process, folding on", tally.get("heavy_fold_on"), 200);
